@@ -87,6 +87,15 @@ def run(name, tier):
         rc, out = sh('cd %s && VERIF_EVIDENCE_DIR=/dev/shm/seedrun-evidence PYG_REPO=%s timeout 3600 ./check %s --tier %s' % (VERIF, d, pid, tier))
         lines = [l for l in out.split('\n') if l.startswith('VIOLATION') or l.startswith('KNOWN-FINDING')]
         detected = rc == 1 and any(l.startswith('VIOLATION') for l in lines)
+        if not detected and os.path.exists(os.path.join(sd, 'demo.py')):
+            # a later fix: commit may have made the change harmless (the repaired code no longer depends on what it edits): then its
+            # own demonstration passes WITH the patch, the property holds, and silence is the right answer
+            rcd, _ = sh('cd %s && PYTHONPATH=%s/src timeout 600 /venv/bin/python -W ignore %s' % (d, d, os.path.join(sd, 'demo.py')))
+            if rcd == 0:
+                meta['neutral_now'] = 'on /repo HEAD %s the change no longer breaks the property: its demo passes with the patch applied and the check (rightly) stays silent; last recorded detection is kept' % sh('git -C /repo rev-parse --short HEAD')[1].strip()
+                json.dump(meta, open(os.path.join(sd, 'meta.json'), 'w'), indent=1)
+                print('%-28s %s NEUTRAL NOW: demo passes with the patch, check exit=%d' % (name, pid, rc))
+                return rc == 0
         concrete = detected and any(l.startswith('VIOLATION') and not l.rstrip().endswith('no-failing-input-found') for l in lines)
         meta.setdefault('detection', {})[tier] = dict(detected=detected, concrete_replay=concrete, exit=rc, lines=lines[:4], wall_s=round(time.time() - t0, 1),
                                                       tail=out.strip().split('\n')[-1][:300])
